@@ -14,6 +14,8 @@ def check(run, only=None):
     run.assumptions = ["use appears only in extending templates; templates of a chain are distinct"]
     simple.gen_and_replay(run, "C09", nontrivial=nontrivial, only=only)
 
+    if only is None:
+        simple.tags_src(run, "C09")
 
 def replay(run, path):
     simple.replay_file(run, path, check)
